@@ -157,15 +157,19 @@ def main(ctx):
     # second population of histories: fewer kinds of operations, deeper (pool reuse needs depth)
     hist2 = ctx.path("hist2.ndjson")
     r3 = ctx.tlc_model("SeqHeap", "SeqHeap_deep%s.cfg" % ("_thorough" if thorough else ""), env={"VERIF_CASES": hist2}, timeout=1500)
+    # third population: the empty sequence as receiver, argument and source of copies
+    hist3 = ctx.path("hist3.ndjson")
+    r4 = ctx.tlc_model("SeqHeap", "SeqHeap_empty.cfg", env={"VERIF_CASES": hist3}, timeout=1500)
     try:
         _, kinds, nwin, _ = fast_scan(laws)
         h1 = fast_scan(hist)
         h2 = fast_scan(hist2)
+        h3 = fast_scan(hist3)
     except ValueError as ex:
         raise vlib.Inconclusive("exported cases: %s" % ex)
-    nhist, longest = [h1[0], h2[0]], max(h1[3], h2[3])
-    if nhist[0] != r2.distinct or nhist[1] != r3.distinct:
-        raise vlib.Inconclusive("SeqHeap exported %s histories for %d+%d states" % (nhist, r2.distinct, r3.distinct))
+    nhist, longest = [h1[0], h2[0], h3[0]], max(h1[3], h2[3], h3[3])
+    if nhist[0] != r2.distinct or nhist[1] != r3.distinct or nhist[2] != r4.distinct:
+        raise vlib.Inconclusive("SeqHeap exported %s histories for %d+%d+%d states" % (nhist, r2.distinct, r3.distinct, r4.distinct))
     kinds["windows"] = nwin
     for kk in ("rc", "subs", "comp", "apat", "kmer"):
         ctx.expect_vacuity("law cases of kind " + kk, kinds.get(kk, 0))
@@ -175,7 +179,7 @@ def main(ctx):
     ctx.extra["exported_histories"] = sum(nhist)
     ctx.extra["longest_history"] = longest
     # R ---------------------------------------------------------------------------------------
-    allc = ",".join((laws, hist, hist2))
+    allc = ",".join((laws, hist, hist2, hist3))
     checked, crashes = replay_all(ctx, allc)
     want = sum(v for k, v in kinds.items() if k not in ("subs", "windows")) + nwin + sum(nhist) + ctx.classes.get("table/obikmer", 0)
     if crashes == 0 and checked != want:
